@@ -682,6 +682,7 @@ func c06Case(run *evid.Run, i int, j *Journal) {
 		desc := fmt.Sprintf("copy-of-r%d <- its own entries + 2 new valid entries, the older of which carries the hash of the destination's entry %s and is filed under its true hash", r, hx.Short(victim.GetHash().String()))
 		j.Log(map[string]any{"case": i, "codec": h.Codec, "phase": "relabelled-entry", "desc": desc})
 		var jerr error
+		beforeG := hx.Observe(dst)
 		ok, dead, dump := guardCall(func() {
 			_, jerr = dst.Join(src, -1)
 			_ = dst.Values() // a replaced entry can point back at the heads: the traversal must still end
@@ -695,6 +696,12 @@ func c06Case(run *evid.Run, i int, j *Journal) {
 				run.Inconclusive("merge of a relabelled entry did not return: " + desc)
 			}
 			return
+		}
+		if jerr != nil {
+			// refused: then nothing of the offered log may have got in (the valid head above the relabelled entry included)
+			if df := obsEqual(beforeG, hx.Observe(dst)); df != "" {
+				run.Violate("C06/not-atomic", det("codec", h.Codec, "kinds", "relabelled entry below a valid head"), wit(desc), "the merge was refused (%v) but the log changed: %s (%s)", jerr, df, desc)
+			}
 		}
 		if got, ok := dst.Get(victim.GetHash()); !ok || hx.ContentDigest(got) != hx.ContentDigest(victim) {
 			run.Violate("C06/held-entry-replaced", d, wit(desc), "after a merge (returned %v) Get() returns another entry under the hash of an entry the log held and had validated (%s)", jerr, desc)
